@@ -58,7 +58,7 @@ func {{ .RequestEncoder }}(encoder func(*http.Request) goahttp.Encoder) func(*ht
 			{{- else }}
 			{
 			{{- end }}
-			v{{ if not (eq .Type.Name "string") }}raw{{ end }} := {{ if .FieldPointer }}*{{ end }}p.{{ .FieldName }}
+			v{{ if not (eq .Type.Name "string") }}raw{{ end }} := {{ if and (eq .Type.Name "string") (isAlias .FieldType) }}string({{ end }}{{ if .FieldPointer }}*{{ end }}p.{{ .FieldName }}{{ if and (eq .Type.Name "string") (isAlias .FieldType) }}){{ end }}
 			{{- if not (eq .Type.Name "string" ) }}
 			{{ template "partial_client_type_conversion" (typeConversionData .Type .FieldType "v" "vraw") }}
 			{{- end }}
